@@ -61,6 +61,7 @@ class Ctx:
         self.safety = []        # (name, pointwise?, condition term, line)
         self.domain = domain
         self.guards = []
+        self.uninit = []        # unknowns standing for the elements of an np.empty vector
 
     def _g(self, cond):
         return z3.Implies(z3.And(*self.guards), cond) if self.guards else cond
@@ -146,42 +147,47 @@ class CodeEval:
     def loop(self, st, env):
         """for i in range(x.shape[0]): if C: d[i] = E1 else: d[i] = E2   ==>   d = where(C, E1, E2)   (pointwise)"""
         if not (isinstance(st.target, ast.Name) and isinstance(st.iter, ast.Call) and
-                ast.unparse(st.iter) in ("range(x.shape[0])", "range(y.shape[0])") and len(st.body) == 1):
+                ast.unparse(st.iter) in ("range(x.shape[0])", "range(y.shape[0])") and not st.orelse):
             raise Unsupported("loop shape in metric body")
         ivar = st.target.id
-
-        def elem(e):
-            # pointwise evaluation: v[i] -> element of v
-            if isinstance(e, ast.Subscript) and isinstance(e.slice, ast.Name) and e.slice.id == ivar:
-                v = self.expr(e.value, env)
-                if not isinstance(v, Vec):
-                    raise Unsupported("indexing a scalar")
-                return Sca(v.t)
-            return None
-        body = st.body[0]
-        tgt, val = self.loop_body(body, env, ivar)
-        env[tgt] = Vec(val)
+        # per-element semantics: iteration i reads and writes element i only (checked by the index shapes accepted
+        # below), so the loop is the pointwise map  v := ite(path condition of the assignment, value, previous v).
+        # `continue` ends the element's iteration; a slot that no path writes keeps the value the vector was created
+        # with (0 for np.zeros, an UNKNOWN for np.empty - uninitialised memory).
+        state = {"live": z3.BoolVal(True), "written": set()}
+        self.block(st.body, env, ivar, z3.BoolVal(True), state)
+        if not state["written"]:
+            raise Unsupported("loop writes no vector")
         return None
 
-    def loop_body(self, node, env, ivar):
-        if isinstance(node, ast.If):
-            c = self.pexpr(node.test, env, ivar)
-            if len(node.body) != 1 or len(node.orelse) != 1:
-                raise Unsupported("loop branch shape")
-            self.ctx.guards.append(c)
-            t1, v1 = self.loop_body(node.body[0], env, ivar)
-            self.ctx.guards.pop()
-            self.ctx.guards.append(z3.Not(c))
-            t2, v2 = self.loop_body(node.orelse[0], env, ivar)
-            self.ctx.guards.pop()
-            if t1 != t2:
-                raise Unsupported("branches assign different vectors")
-            return t1, z3.If(c, v1, v2)
-        if isinstance(node, ast.Assign) and isinstance(node.targets[0], ast.Subscript) \
-                and isinstance(node.targets[0].value, ast.Name) and isinstance(node.targets[0].slice, ast.Name) \
-                and node.targets[0].slice.id == ivar:
-            return node.targets[0].value.id, self.pexpr(node.value, env, ivar)
-        raise Unsupported("loop body statement")
+    def block(self, stmts, env, ivar, guard, state):
+        for node in stmts:
+            here = z3.simplify(z3.And(state["live"], guard))
+            if isinstance(node, ast.Continue):
+                state["live"] = z3.And(state["live"], z3.Not(guard))
+                continue
+            if isinstance(node, ast.Expr) and isinstance(node.value, ast.Constant):
+                continue
+            if isinstance(node, ast.If):
+                self.ctx.guards.append(here)
+                c = self.pexpr(node.test, env, ivar)
+                self.ctx.guards.pop()
+                self.block(node.body, env, ivar, z3.And(guard, c), state)
+                self.block(node.orelse, env, ivar, z3.And(guard, z3.Not(c)), state)
+                continue
+            if isinstance(node, ast.Assign) and len(node.targets) == 1 and isinstance(node.targets[0], ast.Subscript) \
+                    and isinstance(node.targets[0].value, ast.Name) and isinstance(node.targets[0].slice, ast.Name) \
+                    and node.targets[0].slice.id == ivar:
+                tgt = node.targets[0].value.id
+                if tgt not in env or not isinstance(env[tgt], Vec):
+                    raise Unsupported("loop assigns to an element of %s, which is not a vector created before" % tgt)
+                self.ctx.guards.append(here)
+                val = self.pexpr(node.value, env, ivar)
+                self.ctx.guards.pop()
+                env[tgt] = Vec(z3.If(here, val, env[tgt].t))
+                state["written"].add(tgt)
+                continue
+            raise Unsupported("loop body statement %s" % type(node).__name__)
 
     def pexpr(self, e, env, ivar):
         """expression inside the per-element loop: v[i] denotes the element"""
@@ -294,6 +300,12 @@ class CodeEval:
                 return type(v)(EXPF(v.t))
             if f == "np.zeros":
                 return Vec(z3.RealVal(0))
+            if f in ("np.empty", "np.empty_like"):
+                # uninitialised memory: an unknown per element, unrelated to the arguments (a closed form that still
+                # holds for every value of it never observes it)
+                u = z3.FreshConst(z3.RealSort(), "uninitialised")
+                ctx.uninit.append(u)
+                return Vec(u)
             # another metric of the same module (by its own symbolic evaluation)
             q = "opfython.math.distance." + f
             if q in self.repo.functions:
@@ -533,6 +545,17 @@ def verify_metric(repo, name, spec, constants):
     facts += linear_sum_facts(allctx, dom, cand)
     for i, (nm, cond, line) in enumerate(safety_scalar):
         obs.append(mk("%s/safe/scalar/%s#%d" % (qual, nm, i), "safe", side2 + facts, cond, line))
+    # (4) the value never observes uninitialised memory (np.empty): every reduction body and the outer expression take
+    #     the same value for any two contents of such a vector  (C07: "depends only on the argument values")
+    indep = []
+    for u in cctx.uninit:
+        u1, u2 = z3.FreshConst(z3.RealSort(), "mem_a"), z3.FreshConst(z3.RealSort(), "mem_b")
+        for t in [r.body for r in cctx.reds] + [fcode]:
+            if any(x.eq(u) for x in subterms(t)):
+                indep.append(z3.substitute(t, (u, u1)) == z3.substitute(t, (u, u2)))
+    obs.append(mk("%s/reads/no-uninitialised-memory" % qual, "post", side + [dom],
+                  z3.And(*indep) if indep else z3.BoolVal(True), fn.lineno,
+                  "%d vector(s) created by np.empty" % len(cctx.uninit)))
     # (2) outer equality
     obs.append(mk("%s/outer/equals-closed-form" % qual, "outer", side2 + facts, fcode2 == fspec, fn.lineno,
                   "unmatched code reductions: %d" % (len(cctx.reds) - len(subst))))
